@@ -8,6 +8,7 @@ import (
 	"io"
 	"os"
 	"os/exec"
+	"runtime"
 	"strconv"
 	"strings"
 	"testing/iotest"
@@ -313,13 +314,25 @@ func (s *randSplit) Read(p []byte) (int, error) {
 
 // decodeIsolated runs one input in a child process with a memory limit (inputs that may exhaust memory).
 func decodeIsolated(data []byte, bufSize int) string {
-	cmd := exec.Command(os.Args[0], "-child-resp", hx(string(data)), strconv.Itoa(bufSize))
+	ans, _ := decodeIsolatedAlloc(data, bufSize)
+	return ans
+}
+
+// decodeIsolatedAlloc also reports the bytes the decoder allocated (Go runtime TotalAlloc delta) in the child.
+func decodeIsolatedAlloc(data []byte, bufSize int) (string, uint64) {
+	cmd := exec.Command(os.Args[0], "-child-resp", "-", strconv.Itoa(bufSize))
 	cmd.Env = append(os.Environ(), "GOMEMLIMIT=512MiB")
+	cmd.Stdin = bytes.NewReader(data) // raw bytes on stdin (argv is limited to 128 KiB per argument)
 	out, err := cmd.Output()
 	if err != nil {
-		return "crash"
+		return "crash", 0
 	}
-	return strings.TrimSpace(string(out))
+	parts := strings.SplitN(strings.TrimSpace(string(out)), "\talloc=", 2)
+	var a uint64
+	if len(parts) == 2 {
+		a, _ = strconv.ParseUint(parts[1], 10, 64)
+	}
+	return parts[0], a
 }
 
 func init() {
@@ -327,8 +340,13 @@ func init() {
 		if len(args) == 3 && args[0] == "-child-resp" {
 			bs, _ := strconv.Atoi(args[2])
 			// a hard address-space limit: an allocation sized from a declared length dies here
-			setMemLimit(1 << 30)
-			fmt.Println(decodeReal([]byte(unhx(args[1])), bs, 0, nil))
+			setMemLimit(3 << 30)
+			data, _ := io.ReadAll(os.Stdin)
+			var m0, m1 runtime.MemStats
+			runtime.ReadMemStats(&m0)
+			ans := decodeReal(data, bs, 0, nil)
+			runtime.ReadMemStats(&m1)
+			fmt.Printf("%s\talloc=%d\n", ans, m1.TotalAlloc-m0.TotalAlloc)
 			return true
 		}
 		return false
@@ -357,7 +375,12 @@ func respCase(c *Ctx, data []byte, expect string, nontriv bool, isolate bool) {
 	op := fmt.Sprintf("dec %d %s", bs, hx(string(data)))
 	var ans string
 	if isolate {
-		ans = decodeIsolated(data, bs)
+		var alloc uint64
+		ans, alloc = decodeIsolatedAlloc(data, bs)
+		// "never allocates memory far beyond the bytes actually received": generous bound 16x received + 4 MiB
+		if limit := uint64(16*len(data) + 4<<20); ans != "crash" && alloc > limit {
+			c.Fail("resp:overalloc:"+hx(string(data[:min(len(data), 24)])), op, fmt.Sprintf("decoder allocated %d bytes for %d received bytes (limit %d)", alloc, len(data), limit))
+		}
 	} else {
 		ans = decodeReal(data, bs, 0, nil)
 		// read-boundary independence: every split mode must give the same answer
@@ -400,6 +423,19 @@ func runResp(c *Ctx) {
 	for _, h := range []string{"$9223372036854775807\r\n", "*99999999999\r\n", "%99999999999\r\n", "$?\r\n;9223372036854775807\r\n", "*2147483648\r\n", "$4294967296\r\nabc", ">1000000000000\r\n+a\r\n", "*99999999999\r\n*99999999999\r\n*99999999999\r\n"} {
 		respCase(c, []byte(h), "", true, true)
 	}
+	// declared lengths far beyond what arrives, WITH a first block of real payload (65536 = the reserve)
+	for _, decl := range []string{"268435456", "2147483648", "4611686018427387904"} {
+		for _, got := range []int{65535, 65536, 65537, 131072, 200000} {
+			for _, t := range []string{"$", "!", "="} {
+				if c.Tier == "quick" && (t != "$" && got != 65536) {
+					continue
+				}
+				respCase(c, []byte(t+decl+"\r\n"+strings.Repeat("a", got)), "", true, true)
+			}
+		}
+	}
+	respCase(c, []byte("$?\r\n;268435456\r\n"+strings.Repeat("a", 70000)), "", true, true)
+	respCase(c, []byte("*268435456\r\n"+strings.Repeat("+a\r\n", 3000)), "", true, true)
 	for i := 0; i < c.N; i++ {
 		w := c.genWire(1+c.Rng.IntN(4), false)
 		var o bytes.Buffer
